@@ -47,8 +47,9 @@ class _Continue(Signal):
 class FuncVal:
     """A repository function made callable inside the interpreter (explicitly allowed by a rule)."""
 
-    def __init__(self, node, genv, interp):
+    def __init__(self, node, genv, interp, defaults=None):
         self.node, self.genv, self.interp = node, genv, interp
+        self.defaults = defaults      # {param: value} evaluated when the def statement ran (None: module level, lazily)
 
     def __call__(self, *args, **kw):
         return self.interp.call(self, args, kw)
@@ -90,13 +91,15 @@ class Interp:
             bound[a.kwarg.arg] = extra
         for n in names:
             if n not in bound:
-                if n in defaults:
+                if fv.defaults is not None and n in fv.defaults:
+                    bound[n] = fv.defaults[n]
+                elif n in defaults:
                     bound[n] = ev(defaults[n], fv.genv)
                 else:
                     raise PyRaise(TypeError, fn, f'{fn.name}() missing required argument {n!r}')
         for x, d in zip(a.kwonlyargs, a.kw_defaults):
             if x.arg not in bound and d is not None:
-                bound[x.arg] = ev(d, fv.genv)
+                bound[x.arg] = fv.defaults[x.arg] if fv.defaults is not None and x.arg in fv.defaults else ev(d, fv.genv)
         env.update(bound)
         is_gen = getattr(fn, '_is_gen', None)
         if is_gen is None:
@@ -213,7 +216,12 @@ class Interp:
             if not c:
                 raise Raised(st, AssertionError, ast.unparse(st.test))
         elif t in (ast.FunctionDef,):
-            env[st.name] = FuncVal(st, env, self)
+            # default values are evaluated now (Python semantics), not at call time
+            a = st.args
+            pos = a.posonlyargs + a.args
+            dv = {p.arg: ev(d, env) for p, d in zip(pos[len(pos) - len(a.defaults):], a.defaults)}
+            dv.update({p.arg: ev(d, env) for p, d in zip(a.kwonlyargs, a.kw_defaults) if d is not None})
+            env[st.name] = FuncVal(st, env, self, dv)
         elif t in (ast.Import, ast.ImportFrom):
             return
         else:
